@@ -94,7 +94,7 @@ func runC15(c *run.Ctx) {
 		"written forms, nested list/object/enum defaults, directive definitions and uses with arguments, custom root operation names; oracle: Root.SDL(false,true) and the concatenated per-type Type.SDL(true) are accepted " +
 		"by a fresh root, define the same canonical schema (read back through the public API, defaults compared after coercion to their declared type) and print idempotently; the real ggqlgen binary rewrites (-w) and " +
 		"embeds (-e) generated schema files and the outputs are loaded and compared the same way. Non-trivial = schema has a description or default with a character needing an escape, or a directive use; distinct by SDL text"
-	n := c.N(400, 20000)
+	n := c.N(800, 20000)
 	c.MinNontriv = n / 10
 	ggql.Sort = true
 	defer func() { ggql.Sort = false }()
